@@ -135,7 +135,7 @@ void harness(void)
     __CPROVER_assert((r == 0 && (R.Flag & CO_RPDO_FLG__E) != 0) ==> R.Identifier != H_FRM.Identifier, "no RPDO match: no enabled RPDO has that identifier");
     if (r == &V_NODE.RPdo[3]) { __CPROVER_assert(0, "REACH:a"); }
     if (r == 0) { __CPROVER_assert(0, "REACH:b"); }
-#else
+#elif VW_OP == 4
     /* SYNC: every synchronous TPDO advances once; RPDO buffers are applied once per reception */
     for (int n = 0; n < CO_RPDO_N; n++) { V_NODE.Sync.RPdo[n] = (n == H_PN && !H_MNULL[0]) ? &V_NODE.RPdo[n] : (CO_RPDO *)0; }
     for (int n = 0; n < CO_TPDO_N; n++) { V_NODE.Sync.TPdo[n] = 0; }
@@ -146,6 +146,53 @@ void harness(void)
     __CPROVER_assert(pend ==> (N_SYNCUPD == 1 && V_NODE.Sync.RFrm[H_PN].Identifier != R.Identifier), "a buffered synchronous RPDO takes effect at the SYNC, exactly once");
     if (pend && W_N == 2) { __CPROVER_assert(0, "REACH:a"); }
     if (!pend) { __CPROVER_assert(0, "REACH:b"); }
+#elif VW_OP == 5 || VW_OP == 6
+    /* timer callbacks of a TPDO: end of the inhibit time (a remembered trigger is sent now, exactly once) / event time */
+    __CPROVER_assume(P.ObjNum == 0 && P.Node == &V_NODE && P.EvTmr >= -1 && P.InTmr >= -1);
+    for (int on = 0; on < 8; on++) { P.Map[on] = 0; }
+    CO_TPDO p0 = P; _Bool act = (V_NODE.Nmt.Allowed & CO_PDO_ALLOWED) != 0 && p0.Identifier != CO_TPDO_COBID_OFF;
+#if VW_OP == 5
+    COTPdoTmrInhibit(&P);
+    __CPROVER_assert(P.InTmr == -1 || N_TCRE > 0, "inhibit end: the elapsed one-shot action is forgotten");
+    __CPROVER_assert((p0.Flags & CO_TPDO_FLG___E) == 0 ==> (N_SEND == 0 && (P.Flags & CO_TPDO_FLG__I_) == 0), "inhibit end without pending trigger: nothing sent, not inhibited any more");
+    __CPROVER_assert(((p0.Flags & CO_TPDO_FLG___E) != 0 && act) ==> (N_SEND == 1 && (P.Flags & CO_TPDO_FLG___E) == 0), "inhibit end with pending trigger: exactly one transmission follows (no trigger lost)");
+    if (N_SEND == 1 && (P.Flags & CO_TPDO_FLG__I_)) { __CPROVER_assert(0, "REACH:a"); }
+    if (N_SEND == 0) { __CPROVER_assert(0, "REACH:b"); }
+#else
+    COTPdoTmrEvent(&P);
+    __CPROVER_assert((act && (p0.Flags & CO_TPDO_FLG__I_) == 0) ==> N_SEND == 1, "event time passed: the TPDO is sent");
+    __CPROVER_assert((act && (p0.Flags & CO_TPDO_FLG__I_) != 0) ==> (N_SEND == 0 && (P.Flags & CO_TPDO_FLG___E) != 0), "event time passed while inhibited: sent when the inhibit time ends");
+    __CPROVER_assert(N_TDEL == 0, "the elapsed one-shot event action is not deleted again");
+    if (N_SEND == 1) { __CPROVER_assert(0, "REACH:a"); }
+    if (N_SEND == 0 && act) { __CPROVER_assert(0, "REACH:b"); }
+#endif
+#elif VW_OP == 7
+    /* SYNC: a synchronous TPDO of type n (1..240) is sent on every n-th SYNC and on no other.  WF_SYNC: TSync < TNum */
+    for (int n = 0; n < CO_RPDO_N; n++) { V_NODE.Sync.RPdo[n] = 0; }
+    for (int n = 0; n < CO_TPDO_N; n++) { V_NODE.Sync.TPdo[n] = (n == H_PN && !H_MNULL[0]) ? &V_NODE.TPdo[n] : (CO_TPDO *)0; }
+    __CPROVER_assume(P.ObjNum == 0 && P.Node == &V_NODE && P.EvTmr == -1 && P.InTmr == -1 && P.Inhibit == 0 && P.Event == 0 && P.Flags == CO_TPDO_FLG_S__);
+    __CPROVER_assume((V_NODE.Nmt.Allowed & CO_PDO_ALLOWED) != 0 && P.Identifier != CO_TPDO_COBID_OFF);
+    uint8_t tn = V_NODE.Sync.TNum[H_PN], ts = V_NODE.Sync.TSync[H_PN];
+    __CPROVER_assume(tn >= 1 && tn <= 240 && ts < tn);
+    H_FRM.Identifier = V_NODE.Sync.CobId & 0x1FFFFFFF;
+    int16_t u = COSyncUpdate(&V_NODE.Sync, &H_FRM);
+    COSyncHandler(&V_NODE.Sync);
+    _Bool sy = V_NODE.Sync.TPdo[H_PN] != 0;
+    __CPROVER_assert(u == 0, "the identifier of 1005h is recognised as SYNC");
+    __CPROVER_assert(!sy ==> N_SEND == 0, "a TPDO that is not synchronous is not sent on SYNC");
+    __CPROVER_assert(sy ==> (N_SEND == ((uint8_t)(ts + 1) == tn ? 1 : 0)), "type n: sent exactly on the n-th SYNC");
+    __CPROVER_assert(sy ==> (V_NODE.Sync.TSync[H_PN] == ((uint8_t)(ts + 1) == tn ? 0 : ts + 1) && V_NODE.Sync.TSync[H_PN] < tn), "every SYNC advances the schedule exactly once (WF_SYNC preserved)");
+    if (N_SEND == 1) { __CPROVER_assert(0, "REACH:a"); }
+    if (sy && N_SEND == 0) { __CPROVER_assert(0, "REACH:b"); }
+#elif VW_OP == 8
+    /* near-miss identifiers are not SYNC; nothing advances */
+    uint8_t ts = V_NODE.Sync.TSync[H_PN];
+    for (int n = 0; n < CO_TPDO_N; n++) { V_NODE.Sync.TPdo[n] = (n == H_PN && !H_MNULL[0]) ? &V_NODE.TPdo[n] : (CO_TPDO *)0; }
+    int16_t u = COSyncUpdate(&V_NODE.Sync, &H_FRM);
+    __CPROVER_assert((u == 0) == (H_FRM.Identifier == (V_NODE.Sync.CobId & 0x1FFFFFFF)), "a frame is SYNC exactly when its identifier equals the CAN-ID of 1005h");
+    __CPROVER_assert(u != 0 ==> V_NODE.Sync.TSync[H_PN] == ts, "no SYNC: no schedule advances");
+    if (u == 0) { __CPROVER_assert(0, "REACH:a"); }
+    if (u != 0) { __CPROVER_assert(0, "REACH:b"); }
 #endif
     __CPROVER_assert(0, "REACH:post");
 }
